@@ -524,8 +524,66 @@ fn run_c20(out: &mut Out, rng: &mut Rng, count: usize) {
   ];
   for case_no in 0..count {
     let mut crng = rng.fork();
+    // the binding that must be the renamed one (unquote programs)
+    let mut forced_name: Option<String> = None;
     let (rule, src) = if case_no % 5 == 0 {
       ("own".to_string(), own[(case_no / 5) % own.len()].to_string())
+    } else if case_no % 10 == 7 || case_no % 10 == 3 {
+      // *unquote*: a string literal of a rule's own snippet whose text is an identifier (`"submit"`, `'readSync'`, …)
+      // becomes a reference to a local binding of that spelling.  A rule that reads an identifier as if it were the
+      // string of the same spelling (seed C20-7) then depends on how the binding is spelled.
+      let mut found: Option<(String, String, String)> = None;
+      for _ in 0..40 {
+        let s = &corpus[crng.below(corpus.len())];
+        let b = s.src.as_bytes();
+        let mut cands: Vec<(usize, usize)> = vec![];
+        let mut i = 0;
+        while i < b.len() {
+          if b[i] == b'"' || b[i] == b'\'' {
+            let q = b[i];
+            let mut j = i + 1;
+            while j < b.len() && (b[j].is_ascii_alphanumeric() || b[j] == b'_') {
+              j += 1;
+            }
+            if j < b.len() && b[j] == q && j > i + 3 && b[i + 1].is_ascii_alphabetic() {
+              cands.push((i, j + 1));
+            }
+            i = j + 1;
+          } else {
+            i += 1;
+          }
+        }
+        if cands.is_empty() {
+          continue;
+        }
+        let (a, e) = cands[crng.below(cands.len())];
+        let word = s.src[a + 1..e - 1].to_string();
+        if RESERVED.contains(&word.as_str()) || is_keywordish(&word) || hook_like(&word) {
+          continue;
+        }
+        // already an identifier of the snippet: not a fresh local
+        if replace_word(&s.src[..a], &word, "\u{1}") != s.src[..a] || replace_word(&s.src[e..], &word, "\u{1}") != s.src[e..] {
+          continue;
+        }
+        let (prel, body) = {
+          // keep leading imports on top
+          let cut = s.src[..a].rfind("\nimport ").map(|_| 0).unwrap_or(0);
+          (s.src[..cut].to_string(), s.src[cut..].to_string())
+        };
+        let a2 = a - prel.len();
+        let e2 = e - prel.len();
+        let mutated = format!("{}const {} = q9z;\n{}{}{}", prel, word, &body[..a2], word, &body[e2..]);
+        found = Some((s.rule.clone(), mutated, word));
+        break;
+      }
+      match found {
+        Some((r, m, w)) => {
+          out.count("unquote-program");
+          forced_name = Some(w);
+          (r, m)
+        }
+        None => continue,
+      }
     } else if case_no % 10 == 6 {
       // import / use / export programs (TypeScript modules): imported names are bindings too, and get shadowed below
       ("verbatim-module-syntax".to_string(), crate::d_scan::gen_verbatim_program(&mut crng))
@@ -634,7 +692,22 @@ fn run_c20(out: &mut Out, rng: &mut Rng, count: usize) {
     // the binding must be *declared* in the file: at least two groups share the name, or the id is not the top-level
     // unresolved one (already filtered).  Prefer names that occur in several groups (the interesting case).
     eligible.sort_by_key(|((n, _), _)| std::cmp::Reverse(v.groups.keys().filter(|(m, _)| m == n).count()));
-    let pick = if crng.chance(1, 2) { 0 } else { crng.below(eligible.len()) };
+    let pick = match &forced_name {
+      Some(w) => match eligible.iter().position(|((n, _), _)| n == w) {
+        Some(i) => i,
+        None => {
+          out.count("unquote-binding-not-eligible");
+          continue;
+        }
+      },
+      None => {
+        if crng.chance(1, 2) {
+          0
+        } else {
+          crng.below(eligible.len())
+        }
+      }
+    };
     let ((name, ctxt), occ) = eligible[pick];
     let Some(fresh) = fresh_name(&mut crng, name, &src) else { continue };
     let mut renamed = src.clone();
